@@ -131,10 +131,10 @@ def make_df(cols):
     return pd.DataFrame({k: np.asarray(v) for k, v in cols.items()})
 
 
-def make_config(spec):
+def make_config(spec, max_workers=None):
     from yaw import Configuration
     return Configuration.create(rmin=spec.get("rmin", 500.0), rmax=spec.get("rmax", 60000.0),
-                                zmin=0.1, zmax=1.0, num_bins=spec.get("nbins", 3))
+                                zmin=0.1, zmax=1.0, num_bins=spec.get("nbins", 3), max_workers=max_workers)
 
 
 # ------------------------------------------------------------------------------------------
@@ -204,53 +204,146 @@ def copy_cache(src, dst):
 CATS = ("data", "rand", "unk", "urand")
 
 
-def stage_create(spec, cache, max_workers, which="data"):
+# ------------------------------------------------------------------------------------------
+# optional keyword arguments of the parallel entry points (all default to "not given").
+# opts is a plain dict (JSON), the SAME dict is used for the single-process reference run (there
+# every worker limit is 1, see single_process_opts):
+#   progress    list of operations called with progress=True ("create", "trees", "auto", "cross", "hist")
+#   cs          chunksize of the creation (overrides the data spec; None = the library default)
+#   create_mode "num": patches are made by the library (patch_num=<number of centres>, probe_size=opts["probe"])
+#               instead of given centres / a patch column; the patch centres then come from a k-means run that
+#               is not seeded, so only the union of the stored records is compared
+#   leafsize    Catalog.build_trees(leafsize=)
+#   force       a SECOND Catalog.build_trees call with force=<this> after the first one
+#   count_rr    yaw.autocorrelate(count_rr=)
+#   mw_config   the worker limit reaches autocorrelate / crosscorrelate / HistData.from_catalog through
+#               Configuration.max_workers instead of the max_workers argument
+#   mw_ops      {operation: max_workers} overriding the world's worker limit for single operations
+# ------------------------------------------------------------------------------------------
+PROGRESS_OPS = ("create", "trees", "auto", "cross", "hist")
+EMPTY_CENTRE = "patch centers and patch IDs with data do not match"
+
+
+def single_process_opts(opts):
+    """the options of the single-process reference run: identical, except that no operation gets its own worker limit"""
+    o = dict(opts or {})
+    o.pop("mw_ops", None)
+    return o
+
+
+def union_summary(cat):
+    """what can be compared when the library chooses the patch centres itself: all stored records"""
+    rows, fields, nrec, wsum = [], None, 0, []
+    for pid, patch in sorted(cat.items()):
+        data = patch.load_data()
+        fields = list(data.dtype.names)
+        rows.extend(row_keys(data))
+        nrec += int(patch.meta.num_records)
+        wsum.append(float(patch.meta.sum_weights))
+    import math
+    return {"union": {"fields": fields, "rows": sorted(rows), "num_records": nrec, "sum_weights": fhex(math.fsum(wsum))}}
+
+
+def stage_create(spec, cache, max_workers, which="data", opts=None):
     """Catalog.from_dataframe on every rank; returns the summary of what this rank got"""
     from yaw import Catalog
+    opts = opts or {}
     cols = make_columns(spec, which)
-    cat = Catalog.from_dataframe(cache, make_df(cols), chunksize=spec["cs"], max_workers=max_workers,
-                                 overwrite=True, **create_kwargs(spec))
+    kw = create_kwargs(spec)
+    cs = opts["cs"] if "cs" in opts else spec["cs"]
+    if "create" in opts.get("progress", ()):
+        kw["progress"] = True
+    if opts.get("create_mode") == "num":
+        kw.pop("patch_centers", None)
+        kw.pop("patch_name", None)
+        kw["patch_num"] = spec["ncent"]
+        if opts.get("probe") is not None:
+            kw["probe_size"] = opts["probe"]
+        try:
+            cat = Catalog.from_dataframe(cache, make_df(cols), chunksize=cs, max_workers=max_workers, overwrite=True, **kw)
+        except ValueError as err:
+            if EMPTY_CENTRE in str(err):     # raised on every rank (replicated centres): the unseeded k-means left a centre without records
+                return {"union": None}
+            raise
+        return union_summary(cat)
+    cat = Catalog.from_dataframe(cache, make_df(cols), chunksize=cs, max_workers=max_workers, overwrite=True, **kw)
     return catalog_summary(cat, with_center=spec["mode"] != "name")
 
 
-def stage_rest(spec, caches, outdir, max_workers, is_root, ops=None):
-    """the remaining entry points on existing caches; returns {op: summary} for this rank"""
+def stage_rest(spec, caches, outdir, max_workers, is_root, ops=None, opts=None, mark=None):
+    """the remaining entry points on existing caches; returns {op: summary} for this rank.
+    mark(op) is called before every operation (the harness records where a rank was when a world stopped)"""
     import yaw
-    from yaw import Catalog, CorrFunc, HistData
+    from yaw import Catalog, Configuration, CorrFunc, HistData
     ops = ops or ["load", "trees", "auto", "cross", "hist", "io"]
+    opts = opts or {}
+    mark = mark or (lambda op: None)
+    prog = set(opts.get("progress", ()))
+
+    def mw(op):
+        return opts.get("mw_ops", {}).get(op, max_workers)
+
+    def kw(op, via_config=True):
+        k = {}
+        if op in prog:
+            k["progress"] = True
+        if not (via_config and opts.get("mw_config")):
+            k["max_workers"] = mw(op)
+        return k
+
+    def config_for(op):
+        return make_config(spec, mw(op) if opts.get("mw_config") else None)
+
     res = {}
-    cats = {k: Catalog(caches[k], max_workers=max_workers) for k in CATS if k in caches}
+    mark("load")
+    cats = {k: Catalog(caches[k], max_workers=mw("load")) for k in CATS if k in caches}
     if "load" in ops:
         res["load"] = {k: catalog_summary(c) for k, c in cats.items()}
     config = make_config(spec)
     if "trees" in ops:
-        cats["data"].build_trees(config.binning.edges, closed=config.binning.closed, max_workers=max_workers)
+        mark("trees")
+        tkw = kw("trees", via_config=False)
+        if opts.get("leafsize") is not None:
+            tkw["leafsize"] = opts["leafsize"]
+        cats["data"].build_trees(config.binning.edges, closed=config.binning.closed, **tkw)
+        if opts.get("force") is not None:
+            mark("trees-again")
+            cats["data"].build_trees(config.binning.edges, closed=config.binning.closed, force=bool(opts["force"]), **tkw)
         res["trees"] = trees_summary(cats["data"]) if is_root else None
     cfs = None
     if "auto" in ops:
-        cfs = yaw.autocorrelate(config, cats["data"], cats["rand"], max_workers=max_workers)
+        mark("auto")
+        akw = kw("auto")
+        if opts.get("count_rr") is not None:
+            akw["count_rr"] = bool(opts["count_rr"])
+        cfs = yaw.autocorrelate(config_for("auto"), cats["data"], cats["rand"], **akw)
         res["auto"] = summarize(cfs)
     if "cross" in ops:
-        kw = {}
+        mark("cross")
+        ckw = kw("cross")
         if spec.get("cross_rand", "both") in ("both", "ref"):
-            kw["ref_rand"] = cats["rand"]
+            ckw["ref_rand"] = cats["rand"]
         if spec.get("cross_rand", "both") in ("both", "unk"):
-            kw["unk_rand"] = cats["urand"]
-        ccs = yaw.crosscorrelate(config, cats["data"], cats["unk"], max_workers=max_workers, **kw)
+            ckw["unk_rand"] = cats["urand"]
+        ccs = yaw.crosscorrelate(config_for("cross"), cats["data"], cats["unk"], **ckw)
         res["cross"] = summarize(ccs)
     if "hist" in ops:
-        h = HistData.from_catalog(cats["data"], config, max_workers=max_workers)
+        mark("hist")
+        h = HistData.from_catalog(cats["data"], config_for("hist"), **kw("hist"))
         res["hist"] = hist_summary(h)
         if "io" in ops:
+            mark("io_hist")
             h.to_files(os.path.join(outdir, "hist"))
             h2 = HistData.from_files(os.path.join(outdir, "hist"))
             res["io_hist"] = hist_summary(h2)
     if "io" in ops and cfs is not None:
+        mark("io_cf")
         path = os.path.join(outdir, "cf.hdf")
         cfs[0].to_file(path)
         back = CorrFunc.from_file(path)
         res["io_cf"] = summarize(back)
         res["io_cf_equal"] = bool(back == cfs[0]) if is_root else None
+    mark("done")
     return res
 
 
@@ -294,6 +387,8 @@ REFUSALS = {
     "cross-no-redshifts": ("C", "yaw.crosscorrelate with a reference catalog without redshifts", False),
     "hist-no-redshifts": ("C", "HistData.from_catalog on a catalog without redshifts", False),
 }
+# refusal classes whose request has a `progress` keyword (all but Catalog(cache) and the file readers of results)
+NO_PROGRESS_KW = ("load-cache-missing", "load-no-patch-info", "io-corrfunc-file-missing", "io-hist-files-missing")
 EXTRA_CATS = ("noz", "ids", "shift")
 FAR_CENTRE = (200.0, 60.0)
 
@@ -342,13 +437,15 @@ def refusal_call(cls, spec, env, par, max_workers):
     new = os.path.join(d, "new")
     mw = max_workers
     caches = dict(env["caches"], **env.get("extra", {}))
+    # progress=True where the request has that keyword (par["progress"]): the refusal then travels through the progress bar
+    pk = {"progress": True} if par.get("progress") else {}
 
     def cat(name):
         return Catalog(caches[name], max_workers=mw)
 
     def df_create(cols, kw, cache=new, overwrite=True, workers=mw):
         return Catalog.from_dataframe(cache, make_df(cols), chunksize=spec["cs"], max_workers=workers,
-                                      overwrite=overwrite, **kw)
+                                      overwrite=overwrite, **dict(kw, **pk))
 
     cent_kw = create_kwargs(dict(spec, mode="centers"))
     if cls == "random-probe-exceeds-records":
@@ -356,7 +453,7 @@ def refusal_call(cls, spec, env, par, max_workers):
         gen = BoxRandoms(18.0, 32.0, -8.0, 0.0, seed=par["seed"])
         kw = {} if par.get("probe") is None else {"probe_size": par["probe"]}
         return Catalog.from_random(new, gen, par["n"], patch_num=par["patch_num"], chunksize=par.get("cs"),
-                                   max_workers=mw, **kw)
+                                   max_workers=mw, **dict(kw, **pk))
     if cls == "create-empty-centre":
         cent = list(centers(spec))
         cent.insert(par["pos"] % (len(cent) + 1), FAR_CENTRE)
@@ -374,23 +471,23 @@ def refusal_call(cls, spec, env, par, max_workers):
         return df_create(make_columns(spec, "data"), dict(cent_kw, patch_centers=[list(c) for c in centers(spec)]))
     if cls == "create-file-extension":
         return Catalog.from_file(new, os.path.join(d, "input." + par["ext"]), ra_name="ra", dec_name="dec",
-                                 patch_num=3, max_workers=mw)
+                                 patch_num=3, max_workers=mw, **pk)
     if cls == "load-cache-missing":
         return Catalog(os.path.join(d, "absent"), max_workers=mw)
     if cls == "cross-no-randoms":
-        return yaw.crosscorrelate(make_config(spec), cat("data"), cat("unk"), max_workers=mw)
+        return yaw.crosscorrelate(make_config(spec), cat("data"), cat("unk"), max_workers=mw, **pk)
     if cls == "cross-patch-ids-differ":
         args = dict(unknown="unk", ref_rand="rand", unk_rand="urand")
         args[par["which"]] = "ids"
         return yaw.crosscorrelate(make_config(spec), cat("data"), cat(args["unknown"]), ref_rand=cat(args["ref_rand"]),
-                                  unk_rand=cat(args["unk_rand"]), max_workers=mw)
+                                  unk_rand=cat(args["unk_rand"]), max_workers=mw, **pk)
     if cls == "auto-patch-ids-differ":
         a, b = ("ids", "rand") if par["which"] == "data" else ("data", "ids")
-        return yaw.autocorrelate(make_config(spec), cat(a), cat(b), max_workers=mw)
+        return yaw.autocorrelate(make_config(spec), cat(a), cat(b), max_workers=mw, **pk)
     if cls == "auto-centres-misaligned":
-        return yaw.autocorrelate(make_config(spec), cat("data"), cat("shift"), max_workers=mw)
+        return yaw.autocorrelate(make_config(spec), cat("data"), cat("shift"), max_workers=mw, **pk)
     if cls == "cross-centres-misaligned":
-        return yaw.crosscorrelate(make_config(spec), cat("data"), cat("unk"), ref_rand=cat("shift"), max_workers=mw)
+        return yaw.crosscorrelate(make_config(spec), cat("data"), cat("unk"), ref_rand=cat("shift"), max_workers=mw, **pk)
     if cls == "create-mpi-single-worker":
         return df_create(make_columns(spec, "data"), create_kwargs(spec), workers=1)
     # ---- group B ----
@@ -414,7 +511,7 @@ def refusal_call(cls, spec, env, par, max_workers):
         return df_create(cols, create_kwargs(spec2))
     if cls == "create-input-file-missing":
         return Catalog.from_file(new, os.path.join(d, "absent." + par["ext"]), ra_name="ra", dec_name="dec",
-                                 patch_num=3, max_workers=mw)
+                                 patch_num=3, max_workers=mw, **pk)
     if cls == "load-no-patch-info":
         return Catalog(os.path.join(d, "nocache"), max_workers=mw)
     if cls == "io-corrfunc-file-missing":
@@ -424,13 +521,13 @@ def refusal_call(cls, spec, env, par, max_workers):
     # ---- group C ----
     config = make_config(spec)
     if cls == "trees-no-redshifts":
-        return cat("noz").build_trees(config.binning.edges, closed=config.binning.closed, max_workers=mw)
+        return cat("noz").build_trees(config.binning.edges, closed=config.binning.closed, max_workers=mw, **pk)
     if cls == "auto-no-redshifts":
-        return yaw.autocorrelate(config, cat("noz"), cat("rand"), max_workers=mw)
+        return yaw.autocorrelate(config, cat("noz"), cat("rand"), max_workers=mw, **pk)
     if cls == "cross-no-redshifts":
-        return yaw.crosscorrelate(config, cat("noz"), cat("unk"), ref_rand=cat("rand"), max_workers=mw)
+        return yaw.crosscorrelate(config, cat("noz"), cat("unk"), ref_rand=cat("rand"), max_workers=mw, **pk)
     if cls == "hist-no-redshifts":
-        return HistData.from_catalog(cat("noz"), config, max_workers=mw)
+        return HistData.from_catalog(cat("noz"), config, max_workers=mw, **pk)
     raise KeyError("unknown refusal class " + cls)
 
 
@@ -446,19 +543,19 @@ def refusal_outcome(cls, spec, env, par, max_workers):
 FOLLOW_UPS = ("load", "hist", "trees", "create")
 
 
-def stage_follow(follow, spec, env, max_workers, is_root):
+def stage_follow(follow, spec, env, max_workers, is_root, opts=None):
     """a valid collective operation on the regular data catalog; same summaries as stage_create/stage_rest"""
     if follow == "create":
-        return {"create": stage_create(spec, os.path.join(env["dir"], "follow"), max_workers, "data")}
+        return {"create": stage_create(spec, os.path.join(env["dir"], "follow"), max_workers, "data", opts)}
     return stage_rest(spec, {"data": env["caches"]["data"]}, os.path.join(env["dir"], "out"), max_workers, is_root,
-                      ops=[follow])
+                      ops=[follow], opts=opts)
 
 
-def stage_refusal(cls, spec, env, par, max_workers, rank, first, follow):
+def stage_refusal(cls, spec, env, par, max_workers, rank, first, follow, opts=None):
     """the refused request, a barrier, then a valid operation - all on every rank of one world.
     `first` (shared between the rank threads) records how the request ended on each rank, also for
     ranks that never come back from what follows."""
     from yaw.utils import parallel
     first[rank] = refusal_outcome(cls, spec, env, par, max_workers)
     parallel.COMM.Barrier()
-    return stage_follow(follow, spec, env, max_workers, rank == 0)
+    return stage_follow(follow, spec, env, max_workers, rank == 0, opts)
